@@ -237,13 +237,167 @@ def fz_task(wid, seed, params):
     return res
 
 
+# ------------------------------------------------------------------------------------------------ concurrent path calls
+# A host with wasi-threads issues WASI calls from several threads.  Threads that work below different directory descriptors, with
+# path strings and result buffers in different parts of guest memory, do not depend on each other: whatever the interleaving, each
+# call resolves ITS path against ITS descriptor and performs ITS host operation, so return codes, link contents read back and the
+# final trees equal those of running the same scripts one thread after the other (sequential behaviour is what the state machine
+# above decides against the POSIX mirror).  No path_open / fd_close in the scripts: the descriptor table itself is not claimed to be
+# safe against concurrent growth by any listed property.
+def case_par(ch):
+    K = 2 + ch.below(7)
+    rounds = 15 + ch.below(50)
+    threads = []
+    for k in range(K):
+        plen = ch.pick((1, 2, 5, 9, 14, 30))           # name lengths differ between threads
+        ops = []
+        for i in range(rounds):
+            sel = ch.below(64)
+            ops.append([sel & 1, (sel >> 1) & 1, (sel >> 2) & 1, (sel >> 3) & 1, (sel >> 4) & 1, (sel >> 5) & 1])
+        threads.append({'plen': plen, 'unstable': bool(ch.below(4) == 0), 'ops': ops})
+    return {'kind': 'par', 'threads': threads}
+
+
+def _par_scripts(case, fds, ag):
+    """lays the names of every thread into its own guest memory region and returns the call scripts"""
+    scripts = []
+    for k, th in enumerate(case['threads']):
+        base = 0x20000 + k * 0x10000
+        cur = [base]
+        fd, u = fds[k], th['unstable']
+
+        def name(txt):
+            b = txt.encode()
+            a = cur[0]
+            ag.poke(a, b + b'#')          # not NUL-terminated in guest memory
+            cur[0] += len(b) + 1
+            return a, len(b)
+        sc = []
+        out = base + 0x8000                # result area: 64 slots of 128 bytes
+        for i, o in enumerate(th['ops']):
+            pad = 'x' * th['plen']
+            d = name('d%s%d' % (pad, i))
+            e = name('e%s%d' % (pad, i))
+            l = name('l%s%d' % (pad, i))
+            t = name('target-of-thread-%d-round-%d-%s' % (k, i, pad))
+            slot = out + (i % 64) * 128
+            sc.append(('path_create_directory', u, (fd, d[0], d[1])))
+            if o[0]:
+                sc.append(('path_filestat_get', u, (fd, 0, d[0], d[1], slot)))
+            sc.append(('path_rename', u, (fd, d[0], d[1], fd, e[0], e[1])))
+            sc.append(('path_symlink', u, (t[0], t[1], fd, l[0], l[1])))
+            sc.append(('path_readlink', u, (fd, l[0], l[1], slot + 64, 60, slot + 124)))
+            if o[1]:
+                sc.append(('path_filestat_get', u, (fd, 0, d[0], d[1], slot)))       # gone: NOENT
+            if o[2]:
+                sc.append(('path_create_directory', u, (fd, e[0], e[1])))            # EXIST
+            if o[3]:
+                sc.append(('path_unlink_file', u, (fd, l[0], l[1])))
+            if o[4]:
+                sc.append(('path_remove_directory', u, (fd, e[0], e[1])))
+            if o[5]:
+                sc.append(('path_unlink_file', u, (fd, e[0], e[1])))                 # directory: EISDIR / PERM, or NOENT
+        scripts.append(sc)
+    return scripts
+
+
+def _tree(root):
+    import os
+    out = []
+    for dp, dns, fns in os.walk(root):
+        for n in sorted(dns + fns):
+            p = os.path.join(dp, n)
+            out.append((os.path.relpath(p, root), os.readlink(p) if os.path.islink(p) else 'dir' if os.path.isdir(p) else 'file'))
+    return sorted(out)
+
+
+def run_par(case):
+    """returns None or (signature, message)"""
+    import os
+    from .. import wasi as W
+    d = cexec.new_dir('pp')
+    obs = {}
+    try:
+        for mode in ('seq', 'par'):
+            root = os.path.join(d, mode)
+            ag = W.Agent(d, pages=64, cwd=d)
+            try:
+                ag.init([b'p'], [])
+                fds = []
+                for k in range(len(case['threads'])):
+                    os.makedirs(os.path.join(root, 't%d' % k))
+                    ok, fd = ag.preopen(os.path.join(mode, 't%d' % k))
+                    fds.append(fd)
+                ag.fill(0x20000, 0x10000 * len(case['threads']), 0)
+                scripts = _par_scripts(case, fds, ag)
+                if mode == 'seq':
+                    rets = [[ag._call(fn, u, *a) for fn, u, a in sc] for sc in scripts]
+                else:
+                    rets = ag.par(scripts)
+                mem = [ag.peek(0x20000 + k * 0x10000 + 0x8000 + 64, 64) for k in range(len(scripts))]
+                links = [[ag.peek(0x20000 + k * 0x10000 + 0x8000 + s * 128 + 64, 64) for s in range(64)] for k in range(len(scripts))]
+                obs[mode] = (rets, links, [_tree(os.path.join(root, 't%d' % k)) for k in range(len(scripts))], scripts)
+            finally:
+                ag.close()
+        (r0, l0, t0, sc), (r1, l1, t1, _) = obs['seq'], obs['par']
+        for k in range(len(sc)):
+            for i, (a, b) in enumerate(zip(r0[k], r1[k])):
+                if a != b:
+                    return 'par-errno', ('thread %d of %d, call %d %s%r returned %s when the threads ran concurrently and %s when the same scripts '
+                                         'ran one after the other (disjoint directories and guest memory)' % (k, len(sc), i, sc[k][i][0], tuple(sc[k][i][2]), W.ename(b), W.ename(a)))
+            if len(r0[k]) != len(r1[k]):
+                return 'par-protocol', 'thread %d: %d results instead of %d' % (k, len(r1[k]), len(r0[k]))
+            if l0[k] != l1[k]:
+                return 'par-readlink', 'thread %d of %d: link contents / lengths read back by path_readlink differ between the concurrent and the sequential run' % (k, len(sc))
+            if t0[k] != t1[k]:
+                return 'par-tree', ('directory of thread %d of %d after the concurrent run differs from the sequential run: only-concurrent %r only-sequential %r'
+                                    % (k, len(sc), sorted(set(t1[k]) - set(t0[k]))[:4], sorted(set(t0[k]) - set(t1[k]))[:4]))
+        return None
+    finally:
+        cexec.rm(d)
+
+
+def par_task(wid, seed, params):
+    import collections
+    from ..choice import Chooser
+    from ..wasi import AgentDied
+    res = {'evaluations': 0, 'nontrivial': set(), 'classes': collections.Counter(), 'samples': [], 'violations': [],
+           'infra': [], 'extra': {}}
+    for ci in range(params['ncases']):
+        case = case_par(Chooser(seed * 1000003 + ci))
+        try:
+            bad = run_par(case)
+        except AgentDied as e:
+            bad = ('par-agent-died:' + f1.normalize_diag(([l for l in e.stderr.splitlines() if 'ERROR' in l or 'runtime error' in l] or [''])[0]),
+                   '%s\n%s' % (e, cexec.san_head(e.stderr, 1200)))
+        res['evaluations'] += 1
+        ncalls = sum(len(t['ops']) for t in case['threads'])
+        res['classes']['concurrent_path_calls_threads=%d' % len(case['threads'])] += 1
+        res['nontrivial'].add(f1.hx(repr(case)))
+        if len(res['samples']) < 1:
+            res['samples'].append('concurrent path calls: %d threads x %d rounds of mkdir / stat / rename / symlink / readlink / unlink / rmdir below their own pre-opened directories'
+                                  % (len(case['threads']), ncalls // len(case['threads'])))
+        if bad:
+            res['violations'].append({'signature': bad[0], 'summary': bad[1][:900], 'replay': {'kind': 'wasi-par', 'case': case, 'message': bad[1][:3000]}})
+            break
+    return res
+
+
 def task(wid, seed, params):
     if params.get('fz'):
         return fz_task(wid, seed, params)
+    if params.get('par'):
+        return par_task(wid, seed, params)
     return wasihyp.run_machine(C14Machine, seed, params['examples'], params['steps'])
 
 
 def replay(rp):
+    if rp.get('kind') == 'wasi-par':
+        # an interleaving-dependent failure: the case is repeated until it shows (at most 20 times)
+        for _ in range(20):
+            if run_par(rp['case']) is not None:
+                return True
+        return False
     if rp.get('kind') == 'fz':
         import os, subprocess
         exe = fz_build()
@@ -262,8 +416,8 @@ def replay(rp):
 
 def plan(tier, seed):
     if tier == 'quick':
-        return [{'fz': True, 'runs': 300000}] + [{'examples': 1000, 'steps': 25} for _ in range(15)]
-    return [{'fz': True, 'runs': 20000000}] * 4 + [{'examples': 6000, 'steps': 50} for _ in range(28)]
+        return [{'fz': True, 'runs': 300000}] + [{'examples': 1000, 'steps': 25} for _ in range(15)] + [{'par': True, 'ncases': 40} for _ in range(8)]
+    return [{'fz': True, 'runs': 20000000}] * 4 + [{'examples': 6000, 'steps': 50} for _ in range(28)] + [{'par': True, 'ncases': 200} for _ in range(16)]
 
 
 def run(tier, seed):
